@@ -2,12 +2,14 @@ SPECIFICATION TSpec
 CONSTANTS
   VerifyBeforeFormula = TRUE
   ResetRecurses = TRUE
+  ResetStopsAtUncached = FALSE
   PowerShortCircuitChecksExponent = TRUE
   AccumulatorAdds = TRUE
   ResetOnAt = TRUE
   ResetOnPartialAt = TRUE
   ResetOnNumericPartials = TRUE
   EarlyChecksOriginal = TRUE
+  ResetAfterWalk = FALSE
   MaxHist = 0
 INVARIANT Judged
 CHECK_DEADLOCK FALSE
